@@ -38,6 +38,8 @@ for sp in specs:
         cmd = [os.path.join(V, 'bin', 'p9sym'), 'run', '-property', sp['property'], '-tier', sp.get('tier', 'quick'), '-no-evidence']
         if sp.get('only'):
             cmd += ['-only', sp['only']]
+        if sp.get('scenarios'):
+            cmd += ['-scenarios', ','.join(map(str, sp['scenarios']))]
         try:
             r = subprocess.run(cmd, cwd=V, env=dict(env, VERIF_REPO=d, VERIF_DIR=V), capture_output=True, text=True, timeout=1500)
             rc = r.returncode
